@@ -283,3 +283,38 @@ def _(tier, seed):
             os.environ["CMAP_PATH"] = old_env
         shutil.rmtree(root, ignore_errors=True)
     return dict(evaluations=evals, distinct=len(distinct), failures=failures)
+
+
+# -- the extension handed to _create_unique_image_name cannot carry a path: a constant, or a %-format whose every conversion is numeric ---------------
+@exhaustive("image-file-extensions-are-constants-or-numeric-formats", props=["C15", "C18"],
+            note="AST: every call self._create_unique_image_name(image, EXT) in image.py passes a string constant without separator, or a name bound (in the same "
+                 "function) to  '<constant template without separator>' % (...)  whose conversions are all %d (so a document value that is not a number raises "
+                 "instead of being spelled into a file name); f-strings and %s are rejected")
+def _():
+    import re
+    path = os.path.join(REPO, "pdfminer", "image.py")
+    tree = ast.parse(open(path).read())
+    fails, cases = [], 0
+
+    def ok_template(s):
+        return "/" not in s and "\\" not in s and "\0" not in s and ".." not in s
+
+    def ok_ext(e, fn):
+        if isinstance(e, ast.Constant) and isinstance(e.value, str):
+            return ok_template(e.value)
+        if isinstance(e, ast.BinOp) and isinstance(e.op, ast.Mod) and isinstance(e.left, ast.Constant) and isinstance(e.left.value, str):
+            convs = re.findall(r"%[^%a-zA-Z]*([a-zA-Z%])", e.left.value)
+            return ok_template(e.left.value) and all(c_ in ("d", "i", "%") for c_ in convs)
+        if isinstance(e, ast.Name):
+            defs = [n.value for n in ast.walk(fn) if isinstance(n, ast.Assign) and any(isinstance(t, ast.Name) and t.id == e.id for t in n.targets)]
+            return bool(defs) and all(ok_ext(d, fn) for d in defs)
+        return False
+    for fn in ast.walk(tree):
+        if not isinstance(fn, ast.FunctionDef):
+            continue
+        for n in ast.walk(fn):
+            if isinstance(n, ast.Call) and isinstance(n.func, ast.Attribute) and n.func.attr == "_create_unique_image_name":
+                cases += 1
+                if len(n.args) != 2 or not ok_ext(n.args[1], fn):
+                    fails.append(dict(function=fn.name, line=n.lineno, extension=ast.unparse(n.args[1]) if len(n.args) > 1 else None))
+    return dict(cases=cases, failures=fails[:3])
